@@ -10,3 +10,21 @@ package common
 //@   pure
 //@ func AbstractReaderName
 //@   pure
+
+// ---- C08: reserved words. An identifier is escaped when its Python spelling (after the case conversion) is reserved.
+//@ func FieldIdentifierName
+//@   property C08
+//@   ensures unreserved_spelling_is_kept: !(lastResult(formatting.ToSnakeCase) in reservedNames) ==> result == lastResult(formatting.ToSnakeCase)
+//@   ensures reserved_spelling_is_escaped: (lastResult(formatting.ToSnakeCase) in reservedNames) ==> result == lastResult(formatting.ToSnakeCase) + "_"
+//@ func ComputedFieldIdentifierName
+//@   property C08
+//@   ensures unreserved_spelling_is_kept: !(lastResult(formatting.ToSnakeCase) in reservedNames) ==> result == lastResult(formatting.ToSnakeCase)
+//@   ensures reserved_spelling_is_escaped: (lastResult(formatting.ToSnakeCase) in reservedNames) ==> result == lastResult(formatting.ToSnakeCase) + "_"
+//@ func EnumValueIdentifierName
+//@   property C08
+//@   ensures unreserved_spelling_is_kept: !(lastResult(formatting.ToUpperSnakeCase) in reservedNames) ==> result == lastResult(formatting.ToUpperSnakeCase)
+//@   ensures reserved_spelling_is_escaped: (lastResult(formatting.ToUpperSnakeCase) in reservedNames) ==> result == lastResult(formatting.ToUpperSnakeCase) + "_"
+//@ func TypeIdentifierName
+//@   property C08
+//@   ensures unreserved_spelling_is_kept: !(name in reservedNames) ==> result == name
+//@   ensures reserved_spelling_is_escaped: (name in reservedNames) ==> result == name + "_"
